@@ -48,6 +48,10 @@ type Op struct {
 	NOut   int      // blk: number of OP_TRUE outputs of that transaction
 	N      int      // skip: UTXO_SKIP_SAVE_BLOCKS; pause: 1 = writing-time target 1h (save pauses after a chunk)
 	Expect string   // blk: "" ok | "fail" (submission is expected to be refused / to fail the reorg)
+	// wide.go: blk with Async = submitted from a goroutine of its own ("join" waits for it); Spend names starting with "nx"
+	// are outpoints that do not exist (the block is invalid in context); ops "holdfile"/"holdcommit"/"window"/"release"/
+	// "join"/"waitsave"/"restart" are implemented by wideOp
+	Async bool
 }
 
 type Workload struct {
@@ -57,6 +61,8 @@ type Workload struct {
 	Free      bool // no schedule enforcement: goroutines interleave freely (property predicate only)
 	SaveFirst bool // adversarial schedule: a block write waits until a snapshot that has begun is complete
 	Shape     string
+	MaxDat    uint64 // wide.go: BlockDBOpts.MaxDataFileSize of every process of this workload (0 = one data file)
+	Wide      string // wide.go: "" | "failed-reorg" | "save-race" | "rollover"
 }
 
 func blk(name, parent string, nout int, spend ...string) Op {
@@ -189,8 +195,10 @@ type Base struct {
 	Tip    string
 }
 
-func newKit(dir string) *chainkit.Kit {
-	k, err := chainkit.New(chainkit.Opts{Dir: dir, KeepDir: true, GenesisTime: genesisTime}, vlib.NewRng(7))
+func newKit(dir string) *chainkit.Kit { return newKitOpt(dir, 0) }
+
+func newKitOpt(dir string, maxDat uint64) *chainkit.Kit {
+	k, err := chainkit.New(chainkit.Opts{Dir: dir, KeepDir: true, GenesisTime: genesisTime, BlockDBOpts: blockDBOpts(maxDat)}, vlib.NewRng(7))
 	if err != nil {
 		panic(err)
 	}
@@ -390,6 +398,11 @@ type Sched struct {
 	copyErr   error
 	only      int // >0: copy only this hit (replay)
 	saveFirst bool
+	// wide.go
+	hold      func(name string) bool // true = the goroutine arriving at this point has to wait (never longer than point()'s deadline)
+	started   int                    // snapshots started by Chain.Idle / Chain.Close so far
+	onlyPoint string                 // replay of a free-running workload: copy the hit with this point name and per-name index
+	onlyPIdx  int
 }
 
 func newSched(dir, snaps string, enforce bool) *Sched {
@@ -401,6 +414,9 @@ func newSched(dir, snaps string, enforce bool) *Sched {
 func (s *Sched) ready(name string) bool {
 	if s.saveFirst && name == "blockdb.write:before-dat" {
 		return !s.saveAct && !s.fileLive
+	}
+	if s.hold != nil && s.hold(name) {
+		return false
 	}
 	if !s.enforce {
 		return true
@@ -453,7 +469,7 @@ func (s *Sched) point(name string) {
 	case "utxo.commit:undo-renamed":
 		s.undoDone++
 	}
-	if s.only == 0 || s.only == n {
+	if (s.onlyPoint != "" && s.onlyPoint == name && s.onlyPIdx == s.cnt[name]) || (s.onlyPoint == "" && (s.only == 0 || s.only == n)) {
 		if err := copyTree(s.dir, fmt.Sprintf("%s/%04d/", s.snaps, n)); err != nil && s.copyErr == nil {
 			s.copyErr = err
 		}
@@ -536,6 +552,7 @@ type WlRun struct {
 	Results  []string // per blk op: result string
 	ModelTok []string // oracle tokens of this workload (after the base tokens)
 	Err      string
+	WideNote string // wide.go: whether the pinned schedule reached its window
 }
 
 func runWorkload(root string, base *Base, w Workload, only int) *WlRun {
@@ -546,7 +563,7 @@ func runWorkload(root string, base *Base, w Workload, only int) *WlRun {
 	}
 	utxo.UTXO_WRITING_TIME_TARGET = 0
 	utxo.UTXO_SKIP_SAVE_BLOCKS = 0
-	k := newKit(wr.Dir)
+	k := newKitOpt(wr.Dir, w.MaxDat)
 	coins := map[string]*chainkit.Coin{}
 	for n, c := range base.Coins {
 		coins[n] = c
@@ -555,6 +572,8 @@ func runWorkload(root string, base *Base, w Workload, only int) *WlRun {
 	s.only = only
 	s.saveFirst = w.SaveFirst
 	s.snapTip = base.Tip
+	s.onlyPoint, s.onlyPIdx = onlyPoint, onlyPIdx
+	wx := &wideCtx{s: s, wr: wr, w: w}
 	vhook.Set(func(name string) {
 		if name == "utxo.save.file:renamed" {
 			// the snapshot that has just been renamed is the one of the tip at utxo.save:begin
@@ -587,6 +606,7 @@ func runWorkload(root string, base *Base, w Workload, only int) *WlRun {
 				if k.Ch.Idle() {
 					// a save was started; it counts as begun even before its first point fires
 					s.mu.Lock()
+					s.started++
 					if s.cnt["utxo.save:begin"] == s.cnt["utxo.save:finito"] {
 						s.saveAct = true
 					}
@@ -633,6 +653,9 @@ func runWorkload(root string, base *Base, w Workload, only int) *WlRun {
 				var sum uint64
 				for _, cn := range op.Spend {
 					c := coins[cn]
+					if c == nil && strings.HasPrefix(cn, "nx") {
+						c = nonexistentCoin(w.Name + "/" + op.Name + "/" + cn)
+					}
 					if c == nil {
 						wr.Err = "coin " + cn + " unknown"
 						break
@@ -658,13 +681,22 @@ func runWorkload(root string, base *Base, w Workload, only int) *WlRun {
 			s.mu.Lock()
 			s.nsub = len(wr.Blocks)
 			s.mu.Unlock()
+			if op.Async {
+				wx.submitAsync(k, op.Name, raw)
+				break
+			}
 			res := k.Submit(raw)
 			wr.Results = append(wr.Results, op.Name+": "+res.String())
+		default:
+			if !wx.wideOp(op, &k) && wr.Err == "" {
+				wr.Err = "unknown op " + op.K
+			}
 		}
 		if wr.Err != "" {
 			break
 		}
 	}
+	wx.finish()
 	if !closed {
 		func() {
 			defer func() { recover() }()
@@ -687,6 +719,7 @@ func runChild(mode, dir, blocks string) *ChildRes {
 	rf := strings.TrimRight(dir, "/") + "." + mode + ".json"
 	os.Remove(rf)
 	cmd := exec.Command(os.Args[0], "-child", mode, dir, blocks, fmt.Sprint(genesisTime), rf)
+	cmd.Env = append(os.Environ(), childEnv...)
 	cmd.Stdout, cmd.Stderr = nil, nil
 	done := make(chan error, 1)
 	cmd.Start()
@@ -721,6 +754,9 @@ type Case struct {
 	Mode     string `json:"mode"` // client | library
 	Trunc    string `json:"trunc,omitempty"`
 	Second   string `json:"second,omitempty"` // second crash: capture name of the stage-2 process ("" = single crash)
+	// free-running workloads (goroutines interleave freely, the global hit number is not stable): the crash point by name and per-name index
+	Point string `json:"point,omitempty"`
+	PIdx  int    `json:"pidx,omitempty"`
 }
 
 func main() {
